@@ -74,25 +74,26 @@ theorem Py_boolop_last_operand (cfg : Cfg) (P : Prims W) (isAnd : Bool) (last : 
   · rfl
   · simp only [bind_ok]; split <;> rfl
 
-/-! ### witnesses of today's deviations (recorder primitives; each is replayed on the real code by the check) -/
+/-! ### witnesses (recorder primitives): `_cex_` = deviations of today's code (replayed by the check as known findings);
+`_regress_` = the handler shapes that the `fix:` commits removed still deviate, i.e. the flags are not vacuous -/
 
 def logOf (r : R RW Store) : List String := r.2.log
 
 /-- `{T(1): T(2)}` – value evaluated before key -/
-theorem C01_cex_dict :
-    logOf (run Current.cfg (recorder 0) [.expr (.dict [.kv (.leaf 1) (.leaf 2)])] [] {})
+theorem C01_regress_dict :
+    logOf (run Cfg.preFix (recorder 0) [.expr (.dict [.kv (.leaf 1) (.leaf 2)])] [] {})
       ≠ logOf (Py.run (recorder 0) [.expr (.dict [.kv (.leaf 1) (.leaf 2)])] [] {}) := by decide
 
 /-- `f(T(1), x=T(2))` – keywords evaluated before positional arguments -/
 def cexCall : List Stmt :=
   [.assign [.name "f"] (.leaf 0), .expr (.call (.name "f") [.plain (.leaf 1)] [.named "x" (.leaf 2)])]
-theorem C01_cex_call : logOf (run Current.cfg (recorder 0) cexCall [] {}) ≠ logOf (Py.run (recorder 0) cexCall [] {}) := by
+theorem C01_regress_call : logOf (run Cfg.preFix (recorder 0) cexCall [] {}) ≠ logOf (Py.run (recorder 0) cexCall [] {}) := by
   decide
 
 /-- `T(1) < T(2) < T(3)` – the middle operand is evaluated twice -/
 def cexChain : List Stmt := [.expr (.compare (.leaf 1) [.mk 2 (.leaf 2), .mk 2 (.leaf 3)])]
-theorem C01_cex_chain :
-    logOf (run Current.cfg (recorder 0) cexChain [] { tape := [0, 0, 1, 0, 0, 0, 1] })
+theorem C01_regress_chain :
+    logOf (run Cfg.preFix (recorder 0) cexChain [] { tape := [0, 0, 1, 0, 0, 0, 1] })
       ≠ logOf (Py.run (recorder 0) cexChain [] { tape := [0, 0, 1, 0, 0, 0, 1] }) := by decide
 
 /-- `L[T(1)] += T(2)` – the target's sub-expressions are evaluated twice and the binary operator is applied -/
@@ -101,26 +102,26 @@ theorem C01_cex_aug : logOf (run Current.cfg (recorder 0) cexAug [] {}) ≠ logO
 
 /-- `f"{x!r}"` – the conversion is ignored -/
 def cexFstr : List Stmt := [.assign [.name "x"] (.leaf 0), .expr (.fstr [.fmt (.name "x") (some 114) none])]
-theorem C01_cex_fstr_conversion :
-    logOf (run Current.cfg (recorder 0) cexFstr [] {}) ≠ logOf (Py.run (recorder 0) cexFstr [] {}) := by decide
+theorem C01_regress_fstr_conversion :
+    logOf (run Cfg.preFix (recorder 0) cexFstr [] {}) ≠ logOf (Py.run (recorder 0) cexFstr [] {}) := by decide
 
 /-- `[p, q] = T(1)` – list-display targets are not implemented -/
 def cexListTarget : List Stmt := [.assign [.tup true [.name "p", .name "q"] none []] (.leaf 1)]
-theorem C01_cex_list_target :
-    (run Current.cfg (recorder 0) cexListTarget [] { tape := [0, 2] }).1.toOption.isSome
+theorem C01_regress_list_target :
+    (run Cfg.preFix (recorder 0) cexListTarget [] { tape := [0, 2] }).1.toOption.isSome
       ≠ (Py.run (recorder 0) cexListTarget [] { tape := [0, 2] }).1.toOption.isSome := by decide
 
 /-- `+x` – unary plus is not applied -/
 def cexUadd : List Stmt := [.assign [.name "x"] (.leaf 0), .expr (.unary 3 (.name "x"))]
-theorem C01_cex_uadd : logOf (run Current.cfg (recorder 0) cexUadd [] {}) ≠ logOf (Py.run (recorder 0) cexUadd [] {}) := by
+theorem C01_regress_uadd : logOf (run Cfg.preFix (recorder 0) cexUadd [] {}) ≠ logOf (Py.run (recorder 0) cexUadd [] {}) := by
   decide
 
 /-- `f(x=1, **{"x": 2})` – no TypeError, the later value wins -/
 def cexDupKw : List Stmt :=
   [.assign [.name "f"] (.leaf 0),
    .expr (.call (.name "f") [] [.named "7" (.const 1), .splat (.dict [.kv (.fstr [.lit 7]) (.const 2)])])]
-theorem C01_cex_dup_keyword :
-    (run Current.cfg (recorder 0) cexDupKw [] {}).1.toOption.isSome ≠ (Py.run (recorder 0) cexDupKw [] {}).1.toOption.isSome := by
+theorem C01_regress_dup_keyword :
+    (run Cfg.preFix (recorder 0) cexDupKw [] {}).1.toOption.isSome ≠ (Py.run (recorder 0) cexDupKw [] {}).1.toOption.isSome := by
   decide
 
 /-- non-vacuity: a program with every node kind lies in today's fragment -/
